@@ -9,7 +9,10 @@
    (half, quarter, snap), so that the same definitions run on primitive floats (snap = MESH_SNAP
    of gen/Params.v) and carry the theorems over R. *)
 From Coq Require Import List Arith Lia Bool.
-From OV Require Import Base.Panic Base.Arith Model.Vector Model.Matrix.
+From OV Require Import Base.Panic.
+From OV Require Import Base.Arith.
+From OV Require Import Model.Vector.
+From OV Require Import Model.Matrix.
 Import ListNotations.
 Local Open Scope bool_scope.
 Local Open Scope arith_scope.
